@@ -132,7 +132,11 @@ def run(ctx):
             finally:
                 c.repeat_timer.cancel()
             h = rec['hex']
-            if not (h.startswith('0x') and len(h) % 2 == 0 and int(h, 16) == rec['int']):
+            try:
+                hex_ok = h.startswith('0x') and len(h) % 2 == 0 and len(h) > 2 and int(h, 16) == rec['int']
+            except (ValueError, TypeError):
+                hex_ok = False
+            if not hex_ok:
                 hits[name] = True
                 ctx.report(name, 'hex form odd or does not parse back', dict(a), dict(protocol=name, params=a, hex=h, int=rec['int']))
             # decoded == encoded, == own timings, != other keys' timings
